@@ -382,7 +382,7 @@ structure DirCtx where
   tree : Option FsNode := none
 
 def cmdTree (toks : List String) : Option FsNode :=
-  match parseNode 64 toks with
+  match parseNode 4096 toks with
   | some (n, []) => some n
   | _ => none
 
